@@ -297,3 +297,25 @@ pub fn emergency_violation(prop: &str, tier: &str, seed: u64, v: &Violation, sta
     println!("VIOLATION property={} replay={}", prop, p);
     std::process::exit(1);
 }
+
+/// Run `f` (which calls into the subject) under a watchdog: if it does not return within
+/// `limit_s` seconds the hang is reported as a violation of `prop` and the process exits 1.
+pub fn with_hang_watchdog<T>(prop: &str, tier: &str, seed: u64, class: &str, what: String, limit_s: u64, f: impl FnOnce() -> T) -> T {
+    let done = std::sync::Arc::new(std::sync::atomic::AtomicBool::new(false));
+    let d2 = done.clone();
+    let (prop, tier, class) = (prop.to_string(), tier.to_string(), class.to_string());
+    let h = std::thread::spawn(move || {
+        let t0 = Instant::now();
+        while !d2.load(std::sync::atomic::Ordering::SeqCst) {
+            std::thread::sleep(std::time::Duration::from_millis(100));
+            if t0.elapsed().as_secs() > limit_s {
+                let v = Violation { prop: prop.clone(), class: class.clone(), seed: what.clone(), path: vec![], detail: format!("no answer within {} s: {}", limit_s, what), extra: json!({"kind": "hang", "what": what}) };
+                emergency_violation(&prop, &tier, seed, &v, 1);
+            }
+        }
+    });
+    let r = f();
+    done.store(true, std::sync::atomic::Ordering::SeqCst);
+    let _ = h.join();
+    r
+}
